@@ -85,6 +85,18 @@ func (s *Schema) Sub(r *rand.Rand) *Schema {
 	return out
 }
 
+// LongNames renames the fields to names of 128, 129, 200 and 300 bytes (the uvarint holding a field name's
+// length in the persisted field table needs a second byte from 128 on). Sorted order of the names is kept.
+func (s *Schema) LongNames() {
+	pads := []int{128, 129, 200, 300}
+	for i := range s.Fields {
+		n := s.Fields[i].Name
+		if w := pads[i%len(pads)]; len(n) < w {
+			s.Fields[i].Name = n + strings.Repeat("~", w-len(n))
+		}
+	}
+}
+
 func (s *Schema) Names() []string {
 	var out []string
 	for _, f := range s.Fields {
